@@ -95,6 +95,35 @@ def extra_cases(rng, n):
     return res
 
 
+def abstract_dump(d):
+    """what of a structural dump can be observed through Add / Delete / Find: the shape of the tree (paths of static
+    nodes, kinds, children by index byte), value ids in order, wildcard keys, the backtracking flag of nodes that hold
+    values. Not compared: priorities and the order static children are kept in (a lookup visits at most one static
+    child per index byte), the placeholder path of wildcard nodes, the flag of nodes without values."""
+    if not isinstance(d, dict) or "kind" not in d:
+        return d
+    kind = d.get("kind")
+    return {
+        "path": d.get("path") if kind == "static" else "",
+        "kind": kind,
+        "static": [[e[0], abstract_dump(e[1])] for e in d.get("static", [])],
+        "wild": abstract_dump(d.get("wild")),
+        "catch": abstract_dump(d.get("catch")),
+        "values": d.get("values"),
+        "keys": d.get("keys"),
+        "bt": d.get("bt") if d.get("values") else None,
+    }
+
+
+def comparable(results, ops):
+    """results of one case with dumps reduced to their observable part; (list, number of unobservable differences is
+    counted by the caller)"""
+    if not isinstance(results, list):
+        return results
+    return [abstract_dump(r) if isinstance(o, dict) and o.get("op") == "dump" else r for o, r in zip(ops, results)] + \
+        list(results[len(ops):])
+
+
 def check(R, exe, cases):
     """run the implementation harness `exe` and the Lean driver on `cases` (family trie or rtree cases; trie cases are
     converted and get dump ops); returns the differing cases as (case, impl, model)"""
@@ -102,14 +131,22 @@ def check(R, exe, cases):
     impl = vlib.run_cases([exe], cs)
     model = vlib.run_cases(vlib.driver_cmd(), cs)
     bad = []
-    stats = {"wf_false": 0, "refine_bad": 0, "abs_bad": 0, "dumps": 0, "finds": 0, "batches_ok": 0}
+    stats = {"wf_false": 0, "refine_bad": 0, "abs_bad": 0, "dumps": 0, "finds": 0, "batches_ok": 0,
+             "dumps_unavailable": 0, "cases_differing_only_in_unobservable_structure": 0}
     for c, i, m in zip(cs, impl, model):
         st = m.get("stats", {}) if isinstance(m, dict) else {}
         for k in ("wf_false", "refine_bad", "abs_bad"):
             stats[k] += st.get(k, 0)
         mr = vlib.res_of(m)
-        if vlib.canon(i) != vlib.canon(mr) or any(st.get(k, 0) for k in ("wf_false", "refine_bad", "abs_bad")):
+        if isinstance(i, list) and isinstance(mr, list) and "nodump" in i:
+            # the white-box dump helper does not compile against this tree: behaviour only
+            stats["dumps_unavailable"] += i.count("nodump")
+            mr = ["nodump" if x == "nodump" else y for x, y in zip(i, mr)] + mr[len(i):]
+        ia, ma = comparable(i, c["ops"]), comparable(mr, c["ops"])
+        if vlib.canon(ia) != vlib.canon(ma) or any(st.get(k, 0) for k in ("wf_false", "refine_bad", "abs_bad")):
             bad.append((c, i, m))
+        elif vlib.canon(i) != vlib.canon(mr):
+            stats["cases_differing_only_in_unobservable_structure"] += 1
         for o, r in zip(c["ops"], i if isinstance(i, list) else []):
             if o["op"] == "dump":
                 stats["dumps"] += 1
